@@ -318,6 +318,14 @@ void BppODiscreteDistributionFormat::writeDiscreteDistribution(
       out << ",";
     out << "n="  << dist.getNumberOfCategories();
     comma = true;
+    if (dynamic_cast<const UniformDiscreteDistribution*>(&dist))
+    {
+      // the bounds are not parameters of the distribution: they have to be written here
+      int p = out.getPrecision();
+      out.setPrecision(12);
+      out << ",begin=" << dist.getLowerBound() << ",end=" << dist.getUpperBound();
+      out.setPrecision(p);
+    }
   }
 
   try
